@@ -18,6 +18,8 @@ runtime's, not enumerated.
       quiescent state (balances, active HTLCs, circuits, payment results, invoices) by what the wire implies.
   (e) negative controls: a valid trace with Bob's upstream settle moved before the downstream settle / a
       balance changed must be rejected.
+Named deviation O4 (an add stranded between CommitCircuits and the forwarder by a reconnect of the incoming link;
+StrandQuirk) is a candidate finding reported under key C08:add-stranded-by-reconnect when a trace needs it.
 Finding F17 / observation O3 (a link did not send the commit_sig it owed after a reconnect; repaired in /repo
 1abb1ae) stays in the specs as the named deviation OwedSigQuirk (FALSE in every committed run); the directed plan
 spec/Forwarding/repro/O3_plan.ndjson runs with every batch, and a trace that validates only with the deviation
@@ -35,6 +37,10 @@ SPEC = os.path.join(core.VERIF, "spec", "Forwarding")
 LEVEL = "model_checking"
 HARNESS = ["htlcswitch/c08_test.go"]
 O3_KEY = "C08:owed-commit-sig-not-resumed"
+F21_KEY = "C08:fwdpkg-replay-index"
+O4_KEY = "C08:add-stranded-by-reconnect"
+# directed schedules executed with every batch (file name in the schedule dir -> source, key of the finding it guards)
+DIRECTED = {"b_0.ndjson": ("O3_plan.ndjson", O3_KEY), "b_00.ndjson": ("F21_plan.ndjson", F21_KEY)}
 ALLK = '{"ok", "reject", "hold", "underpaid"}'
 BOTH = '{"fwd", "rev"}'
 
@@ -45,7 +51,7 @@ MC_QUICK = [
 ]
 MC_THOROUGH = MC_QUICK + [
     ("2 payments, every kind, both directions, 1 restart + 1 reconnect", 2, ALLK, BOTH, 1, 1, "FALSE"),
-    ("1 payment, every kind, 2 restarts + 2 reconnects, with the named deviation O3 (stalled signatures)", 1, ALLK, BOTH, 2, 2, "TRUE"),
+    ("1 payment, every kind, 2 restarts + 2 reconnects, with the named deviations O3 (stalled signature) and O4 (stranded add)", 1, ALLK, BOTH, 2, 2, "TRUE"),
     ("2 payments ok/reject, one direction, 2 restarts + 1 reconnect", 2, '{"ok", "reject"}', '{"fwd"}', 2, 1, "FALSE"),
     ("1 payment, every kind, 3 network restarts + 3 reconnects", 1, ALLK, BOTH, 3, 3, "FALSE"),
 ]
@@ -77,16 +83,17 @@ def describe(tr):
     return "\n".join(short(r) for r in tr if not (r.get("a") == "E" and r["k"] in ("ready",)))
 
 
-def validate(ck, path, quirk, name):
+def validate(ck, path, quirk, name, strand=False):
     return ck.validate(SPEC, "ForwardingTrace", "ForwardingTrace.cfg", path,
-                       constants={"OwedSigQuirk": "TRUE" if quirk else "FALSE"}, name=name, timeout=2400)
+                       constants={"OwedSigQuirk": "TRUE" if quirk else "FALSE",
+                                  "StrandQuirk": "TRUE" if strand else "FALSE"}, name=name, timeout=2400)
 
 
 def model_check(ck, thorough):
     for what, np_, kinds, dirs, mn, ml, quirk in (MC_THOROUGH if thorough else MC_QUICK):
         r = ck.model_check(SPEC, "ForwardingMC", "ForwardingMC.cfg", what,
                            constants={"NP": np_, "Kinds": kinds, "Dirs": dirs, "MaxNet": mn, "MaxLink": ml,
-                                      "OwedSigQuirk": quirk},
+                                      "OwedSigQuirk": quirk, "StrandQuirk": quirk},
                            workers=4, timeout=2400, coverage=(thorough and np_ == 1 and mn == 2 and quirk == "FALSE"),
                            name="mc_np%d_%d%d_%s" % (np_, mn, ml, quirk[0]))
         if r.coverage_zero:
@@ -178,6 +185,8 @@ def negative_controls(ck, traces):
 def run(ck):
     thorough = ck.tier == "thorough"
     if getattr(ck, "replay", None):
+        if os.path.isdir(ck.replay):
+            ck.replay = os.path.join(ck.replay, "trace.ndjson")
         v = validate(ck, ck.replay, False, "replay")
         recs = core.read_ndjson(ck.replay)
         if not v["ok"]:
@@ -197,8 +206,9 @@ def run(ck):
     for f in os.listdir(sched):
         if f.startswith("b_") and f not in keep:
             os.remove(os.path.join(sched, f))
-    # the deterministic reproduction of observation O3 runs with every batch
-    shutil.copy(os.path.join(SPEC, "repro", "O3_plan.ndjson"), os.path.join(sched, "b_0.ndjson"))
+    # the deterministic reproductions of F17 (O3) and F21 run with every batch
+    for name, (src, _) in DIRECTED.items():
+        shutil.copy(os.path.join(SPEC, "repro", src), os.path.join(sched, name))
     # (c) execute on the real network: thorough under the race detector
     free = 160 if thorough else 14
     res = ck.go_test("./htlcswitch/", "^TestVerifC08Forwarding$", HARNESS,
@@ -248,6 +258,22 @@ def run(ck):
                          files={"trace.ndjson": one, "O3_plan.ndjson": os.path.join(SPEC, "repro", "O3_plan.ndjson")},
                          text="strict validation: %s at line %d; accepted with OwedSigQuirk=TRUE\n%s\n%s" % (
                              v["invariant"], line - a, describe(work[a:b]), v["cex"] or ""))
+        elif validate(ck, one, False, "val_%d_o4" % attempt, strand=True)["ok"]:
+            ck.violation(O4_KEY,
+                         "an incoming HTLC is left locked in and unanswered at quiescence: the incoming link was "
+                         "reconnected while ForwardPackets was between CommitCircuits and the hand-over to the forwarder "
+                         "(routeAsync gives up on the link's quit); the re-forwarded add is dropped as a duplicate (named "
+                         "deviation O4), plan %s; repro findings/F22cand_c08_stranded_add_repro_test.go.txt" % work[a].get("plan"),
+                         files={"trace.ndjson": one},
+                         text="strict validation: %s at line %d; accepted with StrandQuirk=TRUE\n%s\n%s" % (
+                             v["invariant"], line - a, describe(work[a:b]), v["cex"] or ""))
+        elif work[a].get("plan") == "b_00.ndjson":
+            ck.violation(F21_KEY,
+                         "processRemoteAdds indexes a replayed forwarding package by the position in the filtered list: after "
+                         "two reconnects the exit hop's link dies on a replayed, already settled add and the next payment is "
+                         "never answered (F21); %s at line %d" % (v["invariant"], line - a),
+                         files={"trace.ndjson": one, "F21_plan.ndjson": os.path.join(SPEC, "repro", "F21_plan.ndjson")},
+                         text="%s\n%s" % (describe(work[a:b]), v["cex"] or ""))
         else:
             report(ck, work, v, False, "v%d" % attempt)
         work = work[:a] + work[b:]
